@@ -23,6 +23,7 @@ def cmd(tool="shell", ins=(), outs=(), tag="", reads=(), failif="", failpt="befo
     c["_spell"] = spell or {}; c["_inherit_env"] = inherit_env
     c["_depfmt"] = depstyle          # the format the body actually writes (normally the declared style)
     c["_failhow"] = "exit 1"         # how a failing body dies: "exit N" or "kill -SIG $$"
+    c["_relreads"] = False           # dependency file names the read paths relative to the working directory
     return c
 
 def sigx_of(name, c, idx):
@@ -32,7 +33,7 @@ def sigx_of(name, c, idx):
     if c["_signature"]:
         return dict(explicit=c["_signature"])
     # the argument vector is an injective function of these fields
-    return dict(tag=c["tag"], reads=c["reads"], failif=c["failif"], failpt=c["failpt"], failhow=c["_failhow"], depsok=c["depsok"], idx=idx, keep=c["keep"],
+    return dict(tag=c["tag"], reads=c["reads"], failif=c["failif"], failpt=c["failpt"], failhow=c["_failhow"], depsok=c["depsok"], idx=idx, keep=c["keep"], rel=c.get("_relreads", False),
                 extra=c["_extra"], env=c["_env"], depstyle=c["_depstyle"] if c["reads"] else "", depfmt=c["_depfmt"] if c["reads"] else "",
                 inherit=c["_inherit_env"])
 
@@ -67,7 +68,8 @@ def deps_bytes(c, nodes, abs_prefix):
     paths = []
     for r in c["reads"]:
         n = r  # node name: absolute names start with @/
-        paths.append(n.replace(SBX, abs_prefix) if n.startswith(SBX) else n)
+        if c.get("_relreads") and c["_depfmt"] == "makefile" and n.startswith(SBX + "/"): paths.append(n[len(SBX) + 1:])    # (only the Makefile style resolves relative names)
+        else: paths.append(n.replace(SBX, abs_prefix) if n.startswith(SBX) else n)
     if c["_depfmt"] == "depinfo":
         b = b"\x00verif\x00" + b"".join(b"\x10" + p.encode("latin-1") + b"\x00" for p in paths)
         if not c["depsok"]: b = b[:-1] if paths else b"\x10x"       # unterminated last operand
